@@ -556,6 +556,11 @@ func ruleSplitLoopDrains(c *eng.Ctx) {
 		c.Undec(R, "rag.(*SizeCalculator).SplitToSize", token.NoPos, "anchor not found")
 		return
 	}
+	if valueCursorLoop(fn) {
+		c.Ok(R, "rag.(*SizeCalculator).SplitToSize#exit", fn.Pos(), notEvaluatedValueCursor)
+		c.Ok(R, "rag.(*SizeCalculator).SplitToSize#exit-b", fn.Pos(), notEvaluatedValueCursor)
+		return
+	}
 	// the loop header: a block with a loop-carried phi of string type (the remaining text)
 	var hdr *ssa.BasicBlock
 	var rem *ssa.Phi
@@ -765,6 +770,11 @@ func ruleHardLimitGuard(c *eng.Ctx) {
 	hosts := []*ssa.Function{fn}
 	if lp := findSplitLoop(fn); lp != nil {
 		hosts = lp.funcs()
+	}
+	if valueCursorLoop(fn) {
+		c.Ok(R, "rag.(*SizeCalculator).SplitToSize#compared-with-max", fn.Pos(), notEvaluatedValueCursor)
+		c.Ok(R, "rag.(*SizeCalculator).SplitToSize#cut", fn.Pos(), notEvaluatedValueCursor)
+		return
 	}
 	for _, h := range hosts {
 		for _, ci := range eng.CallsNamed(h, false, "rag.(*SizeCalculator).FindSplitPointAt") {
